@@ -2,6 +2,8 @@
 states, owner P1/P2/PR, transitions {a, w, t} with integer weights) and the
 keyword arguments of tad.StochasticGame (0-based, floats)."""
 
+import math
+
 OWNER = {"P1": "Player 1", "P2": "Player 2", "PR": "Probabilistic"}
 OWNER_INV = {v: k for k, v in OWNER.items()}
 
@@ -18,7 +20,8 @@ def to_python(g):
         else:
             tl.append([(e["a"], e["t"] - 1) for e in row])
     return {
-        "rewards": list(g["reward"]),
+        "rewards": (list(g["reward"]) if g.get("rscale", 1) == 1
+                    else [r / g["rscale"] for r in g["reward"]]),
         "players": [OWNER[o] for o in g["owner"]],
         "transition_list": tl,
         "final_states": [f - 1 for f in g["final"]],
@@ -44,9 +47,19 @@ def from_python(desc, den=None):
             else:
                 row.append({"a": first, "w": 0, "t": nxt + 1})
         tr.append(row)
+    # rewards: integers, or rationals over a common denominator <= 1000 (field rscale)
+    from fractions import Fraction
+    rs = [Fraction(r).limit_denominator(1000) for r in desc["rewards"]]
+    scale = 1
+    for r in rs:
+        scale = scale * r.denominator // math.gcd(scale, r.denominator)
+    if scale > 1000 or any(abs(float(r) - x) > 1e-12 for r, x in zip(rs, desc["rewards"])):
+        raise ValueError("rewards are not small rationals")
     g = {"n": n, "owner": [OWNER_INV[p] for p in desc["players"]],
-         "reward": list(desc["rewards"]), "tr": tr,
+         "reward": [int(r * scale) for r in rs], "tr": tr,
          "final": [f + 1 for f in desc["final_states"]]}
+    if scale > 1:
+        g["rscale"] = scale
     return g, exact
 
 
